@@ -233,7 +233,7 @@ broadcast use {
         r is Ok ==> fits12(old(fat).bytes(), cluster as int) && r->Ok_0 == ent12(old(fat).bytes(), cluster as int),
 //@endextract
 
-// @obl props=C08,C09,C13 tier=quick fns=Fat12::get
+// @obl props=C03,C08,C09,C13 tier=quick fns=Fat12::get
 // @desc FAT12 get(k): Ok(v) => v = class12(entry k): 0 free, FF7 bad, FF8..FFF (every legal marker) end of chain, else next cluster; table unchanged
 //@extract file=src/table.rs scope="impl FatTrait for Fat12" fn=get as=fat12_get self_prefix=fat12_
 //@generics <S: Stream<E>, E>
